@@ -24,6 +24,9 @@ type Deck struct {
 	Slides     []PSlide
 	Extras     bool // docProps, presProps, viewProps, tableStyles present
 	InfraFirst bool
+	// RelsInfraFirst: /_rels/.rels lists the officeDocument relationship last and
+	// presentation.xml.rels lists slideMaster / theme / props before the slides
+	RelsInfraFirst bool
 }
 
 const (
@@ -94,6 +97,11 @@ func (d *Deck) Members() []Member {
 			mem("ppt/viewProps.xml", xmlDecl+`<p:viewPr`+pNS+`/>`),
 			mem("ppt/tableStyles.xml", xmlDecl+`<a:tblStyleLst xmlns:a="`+nsA+`" def="{5C22544A-7EE6-4342-B048-85BDC9FD1C3A}"/>`),
 			mem("docProps/core.xml", corePropsXML("deck")), mem("docProps/app.xml", appPropsXML("verif")))
+	}
+	if d.RelsInfraFirst {
+		n := len(rel)
+		rels = append(append([]Rel{}, rels[n:]...), rels[:n]...)
+		root = append(append([]Rel{}, root[1:]...), root[0])
 	}
 	infra := []Member{
 		mem("[Content_Types].xml", contentTypesXML(ov)),
